@@ -30,8 +30,20 @@ theorem c13_lag_counterexample :
     twoCycles exRun 10 100 true ≠ twoCycles exRun 10 100 false :=
   NR.Proofs.Par.lag_counterexample
 
+/-- Deterministic mode: in every reachable state of dispatcher and workers, every running worker belongs to the cycle
+that is being spawned — a run of cycle k+1 never starts while a run of cycle k is still going (the `waitGroup.Wait()` at
+the end of every cycle; the harness checks the same on the code's `worker_copied` / `worker_done` hook events). -/
+theorem c13_cycles_do_not_overlap (runs : Nat) (s : Cyc) (h : CReach runs false s) : NoOverlap s :=
+  NR.Proofs.Par.reach_noOverlap runs s h
+
+/-- Non-vacuity, and what goes wrong without the wait. -/
+theorem c13_barrier_skipped_counterexample : ∃ s, CReach 1 true s ∧ ¬ NoOverlap s :=
+  NR.Proofs.Par.skip_overlaps
+
 end NR.Props.C13
 
 #print axioms NR.Props.C13.c13_cycle_result_order_independent
 #print axioms NR.Props.C13.c13_budget_counterexample
 #print axioms NR.Props.C13.c13_lag_counterexample
+#print axioms NR.Props.C13.c13_cycles_do_not_overlap
+#print axioms NR.Props.C13.c13_barrier_skipped_counterexample
